@@ -120,6 +120,13 @@ def res_key(mech):
     return None, mech
 
 
+VECTOR_TYPE = re.compile(r"^(float|int|uint|bool|half|double|min16float|min16int|min16uint|short|ushort|long|ulong|char|uchar)"
+                         r"[1-4](x[1-4])?$")
+
+
+NUMBERED_GENERATED = re.compile(r"^(set|InlineDescriptor|g_inlineDescriptor)\d+$")
+
+
 def finding_key(req, obs, detail):
     """Key of an oracle failure = <defect site>/<mechanical key>.  The mechanical key is printed by the harness
     (`FAIL:<mechanical key> | <text>`) and names the target, the check that failed and the kinds of the entities
@@ -132,7 +139,20 @@ def finding_key(req, obs, detail):
         return "panic %s: %s" % (m.group(1), re.sub(r"\d+", "N", m.group(2)))
     mech = d.split(" | ")[0]
     if req.startswith("C15.res"):
+        # a user entity spelled like a built-in vector / matrix type (`uint3`, `float4`, `float4x4`: accepted by the front end,
+        # in neither RESERVED_NAMES) is emitted verbatim and hides the type in every later declaration that names it
+        m = re.search(r"built-in '([A-Za-z0-9_]+)' resolves to", d)
+        if mech.startswith("capture-builtin:") and m and VECTOR_TYPE.match(m.group(1)):
+            return "res:vector-type-names-not-reserved/capture-builtin:%s:vector-type" % mech.split(":")[1]
         site, key = res_key(mech)
+        if site == "generated-names-not-reserved":
+            # the open defect is about the NUMBERED identifiers the exporters build with format! (`set<i>`, `InlineDescriptor<n>`,
+            # `g_inlineDescriptor<n>`); the fixed generated names (implicit parameters, stage locals, wrapper names) are
+            # reserved (introduced_names_reserved_as_modelled): a clash with one of those is never known
+            m = re.search(r"declared as '(\w+)'", d) or re.search(r"\| '([\w:]+)' printed for", d)
+            name = m.group(1) if m else ""
+            if not any(NUMBERED_GENERATED.match(c) for c in name.split("::")):
+                return "%s:fixed-name:%s" % (key, name)
         return key if site is None else "res:" + site + "/" + key
     root = root_cause(mech)
     if root is None:
@@ -218,6 +238,8 @@ WITNESSES = [
     ('pGood', 'dx', 'st S a end gl s g rs cbs s0 texture rs ba - sampler fn h i p { lv x use G0 use G1 } ef c main tid { use F0 use G2 } pl P F1 -'),
     ('pGood', 'vkba', 'st S a end gl s g rs cbs s0 texture rs ba - sampler fn h i p { lv x use G0 use G1 } ef c main tid { use F0 use G2 } pl P F1 -'),
     ('pGood', 'msl', 'st S a end gl s g rs cbs s0 texture rs ba - sampler fn h i p { lv x use G0 use G1 } ef c main tid { use F0 use G2 } pl P F1 -'),
+    ('pWave', 'msl', 'fn zqf i threads_per_simdgroup { use W0 use W1 use L0 } ef c zqe zqp { use F0 } pl zqP F1 -'),
+    ('pWave', 'dx', 'fn zqf i threads_per_simdgroup { use W0 use W1 use L0 } ef c zqe zqp { use F0 } pl zqP F1 -'),
 ]
 
 
@@ -245,6 +267,9 @@ SPEC = {
         "scope_loop_terminates",
         # the emitted program (Model/NamesEmit: how both exporters consume the map)
         "emitted_never_reserved", "emitted_injective_file_scope", "flat_used_name_unique",
+        # identifiers the exporters introduce themselves (implicit wave parameters, stage locals, wrapper names)
+        "introduced_names_reserved_as_modelled", "implicit_params_as_modelled", "implicit_params_apart_from_managed",
+        "implicit_params_apart_from_managed_msl", "waveParams_decls", "implicit_param_clash_without_reservation_witness",
         "uses_resolve_to_same_entity", "renaming_equivariant", "renaming_not_suffix_stable_witness",
         # clauses that are false on the current code: witnesses on the model, replayed on the real compiler
         "member_reserved_witness", "cbuffer_reserved_witness", "cbuffer_member_dangling_witness",
@@ -265,10 +290,18 @@ SPEC = {
                   "(renaming_equivariant; a renaming that breaks the name_k format refutes the literal clause: witness). (2) NamesEmit: how "
                   "the HLSL (dx, vk, vk + buffer addresses) and Metal exporters consume the map - every declaration and use of an "
                   "identifier of the emitted program incl. InlineDescriptorN / g_inlineDescriptorN, threaded Metal parameters, "
-                  "ArgumentBufferN, setN and the ComputeShaderEntry wrapper, plus the reflected binding and entry-point names: every "
+                  "ArgumentBufferN, setN, the ComputeShaderEntry wrapper and the implicit wave parameters (thread_index_in_simdgroup / "
+                  "threads_per_simdgroup, declared in every function of the WaveGetLaneIndex / WaveGetLaneCount call closure, passed on at "
+                  "every call, created by the wrapper), plus the reflected binding and entry-point names: every "
                   "declaration of a map-managed entity carries the map's leaf name and is therefore never reserved "
                   "(emitted_never_reserved), file-scope declarations of one namespace are pairwise different "
-                  "(emitted_injective_file_scope), and in programs without namespaces every map-managed candidate C++ lookup finds for the "
+                  "(emitted_injective_file_scope), no map-managed declaration is spelled like an implicit wave parameter because those names "
+                  "are reserved (implicit_params_apart_from_managed; necessary: implicit_param_clash_without_reservation_witness), every "
+                  "fixed identifier the generators introduce themselves - re-extracted from declaring positions of generator.rs / "
+                  "pipeline.rs / ast_generate.rs and from the constants of names.rs - is in RESERVED_NAMES "
+                  "(introduced_names_reserved_as_modelled; the numbered format! identifiers setN / InlineDescriptorN / g_inlineDescriptorN "
+                  "are not: witness), the model's implicit parameter names / triggering intrinsics / order are the generator's "
+                  "(implicit_params_as_modelled), and in programs without namespaces every map-managed candidate C++ lookup finds for the "
                   "name printed for a used function/global is that entity (uses_resolve_to_same_entity). The clauses that are false on the "
                   "current code (struct members, cbuffer blocks/members, generated names, locals vs type names, Metal wrapper parameters, "
                   "leaf-named threaded parameters / inline-descriptor members, relative paths, methods) are proved false by 11 witnesses "
@@ -288,15 +321,24 @@ SPEC = {
             "and entry points name the declaration sites they name in the skeleton, names agree with the direct NameMap::build call, "
             "verbatim names; the model must print the same declaration/use listing, reflection and entry names.  Sweeps: every name of "
             "RESERVED_NAMES (both targets), of the independent lists and of the exporters' own generated names in 27 resource "
-            "positions x 4 targets and 13 plain positions x 2 targets; random programs over small name pools.  non-trivial = a "
+            "positions x 4 targets and 13 plain positions x 2 targets, plus 11 wave positions (entry / helper parameter, local, "
+            "block local, caller that only passes the values on, threaded global, resource, function, entry, namespace) for every "
+            "identifier the exporters introduce (list = fixed list + identifiers re-extracted from the generator sources + "
+            "RESERVED_NAMES + Spec lists, so a name dropped from RESERVED_NAMES stays swept); random programs over small name "
+            "pools, and a second random stream whose bodies use the wave intrinsics and whose pools take introduced names.  non-trivial = a "
             "generated name occurs or >= 4 symbols are named",
     "trusted_base": [
         "Lean 4.33 kernel; axioms propext / Classical.choice / Quot.sound only (audited by #print axioms)",
         "tools/gens/c15.py (Gen.Reserved: RESERVED_NAMES of both exporters with constants resolved, is_illegal_*_name, literal "
-        "fingerprints of the statements of NameMap::build the model transcribes, the NameMap::build call arguments)",
+        "fingerprints of the statements of NameMap::build the model transcribes, the NameMap::build call arguments; "
+        "mslIntroduced / hlslIntroduced / *Patterns: identifiers in the declaring positions Declarator::Identifier(ScopedIdentifier::"
+        "trivial(X)), Declarator::from(Located::none(X)), VarDef::one(Located::none(String::from(X))) and every names.rs constant the "
+        "generator sources mention; mslImplicitParams / mslImplicitIntrinsics / mslImplicitOrder: per-arm extraction of the three "
+        "ImplicitFunctionParameter matches, which must agree; generator/intrinsic_helpers.rs is excluded - it declares only inside "
+        "namespace helper)",
         "hand-written Model/Names.lean mirrors NameMap::build, Model/NamesEmit.lean mirrors the consumption of the map by "
         "hlsl/src/ast_generate.rs and msl/src/generator.rs + generator/pipeline.rs; both tied to the code by the correspondence "
-        "run only (no translator table for the exporters)",
+        "run only, except the implicit wave parameters and the introduced-name tables (Gen.Reserved)",
         "Spec/Names.lean: committed independent keyword/built-in lists for HLSL and MSL (our reading of the language references); "
         "Spec/NamesResolve.lean: C++ unqualified lookup for programs without namespaces",
         "harness: descriptor -> RSSL printers, output lexer and scope resolver (names stream), syntax-tree walker with C++ lookup and "
